@@ -1290,7 +1290,9 @@ def script_clone(g, n, prop, out):
             try:
                 x, _ = irgen.build_ir(spec, "topdown")
                 if pre == "warm":
-                    for sig, d in oracle.check_ir(g, x):
+                    for sig, d in oracle.check_ir(
+                            g, x, props={"C12": ("C05", "C06", "C12")}.get(
+                                prop, (prop,))):
                         out.append((sig.replace("/clone:", "/built-large:"),
                                     "%s: %s" % (where, d)))
                 before = irgen.snapshot(x)
@@ -1308,7 +1310,8 @@ def script_clone(g, n, prop, out):
                         raise
                     continue
                 steps += 1
-                for sig, d in oracle.check_ir(g, y, others=[x]):
+                parts = {"C12": ("C05", "C06", "C12")}.get(prop, (prop,))
+                for sig, d in oracle.check_ir(g, y, others=[x], props=parts):
                     out.append((sig, "%s, right after the copy: %s"
                                 % (where, d)))
                 if not (x.deep_eq(y) and y.deep_eq(x)):
@@ -1347,10 +1350,10 @@ def script_clone(g, n, prop, out):
                 y.cfg.discard(e)
                 y.cfg.add(g.Edge(newk, e.target))
                 steps += 1
-                for sig, d in oracle.check_ir(g, y, others=[x]):
+                for sig, d in oracle.check_ir(g, y, others=[x], props=parts):
                     out.append((sig, "%s, after edits to the copy: %s"
                                 % (where, d)))
-                for sig, d in oracle.check_ir(g, x, others=[y]):
+                for sig, d in oracle.check_ir(g, x, others=[y], props=parts):
                     out.append((sig.replace("/clone:", "/clone:original-"),
                                 "%s, original after edits to the copy: %s"
                                 % (where, d)))
